@@ -23,6 +23,7 @@ import time
 
 import c02_fs as F
 import vlib
+import c02_fault
 
 META = {
     "category": "proof",
@@ -1741,8 +1742,20 @@ def run(chk):
             reported += 1
         elif corrs:
             corr_only.append({"history": name, "options": optname, "problems": corrs[:4], "ops": ops_to_json(ops)[:60]})
+    # ---- stage open-fault (checks/c02_fault.py): EIO at every system call of KeyValueStore::open
+    okl, outl, (lsm_exe,) = vlib.cargo_build(["lsm"])
+    if not okl:
+        raise RuntimeError("harness build failed (lsm):\n" + outl[-2000:])
+    with multiprocessing.Pool(max(2, vlib.NCPU - 2)) as fpool:
+        of_cov, of_bad = c02_fault.run_stage(chk, lsm_exe, lambda f, a: fpool.map(f, a, chunksize=1))
+    for b in of_bad:
+        if reported < 3:
+            chk.violation("c02_%s.json" % b["name"], {"kind": "property", "what": b["problems"][0]["what"] + " - " + b["problems"][0]["fault"], "problem": b,
+                                                      "replay_cmd": "./bin/check C02 --replay <this file>"})
+            reported += 1
     chk.coverage.update({
-        "evaluations": stats.get("probes", 0), "distinct_nontrivial": len(nontrivial),
+        "open_fault_stage": of_cov,
+        "evaluations": stats.get("probes", 0) + of_cov["faulted_opens"], "distinct_nontrivial": len(nontrivial),
         "rule": "one evaluation = one crash image (or one directory left by an injected fault / a real SIGKILL) reopened by a fresh process of the real store and read back (point reads of a key universe, full range scan, every live sst entry by entry); histories = random single-stepped puts/deletes/batches over an adversarial key universe, flushes, compaction steps, reopens, from one SplitMix64 seed, under 4 option sets (tiny files, few files per compaction, manifest rollover at every edit, defaults); quick tier samples the crash points of every operation (about 1 in 3..5) under both crash models, thorough takes every one; non-trivial = a history with at least one flush and four reopened images; distinct = distinct op lists",
         "samples": [ops_to_json(names[-1][2])[:10]],
         "input_distribution": stats,
@@ -1777,6 +1790,11 @@ def run(chk):
 def replay(path):
     obj = json.load(open(path))
     print(json.dumps({k: obj[k] for k in obj if k != "history"}, indent=1)[:4000])
+    if obj.get("problem", {}).get("stage") == "open-fault":
+        okl, outl, (lsm_exe,) = vlib.cargo_build(["lsm"])
+        r = c02_fault.run_case((lsm_exe, os.path.join(vlib.WORK, "C02-replay"), 0, 1, obj["problem"]["script"]))
+        print("problems now:", json.dumps(r["problems"][:6], indent=1)[:4000])
+        return 1 if r["problems"] else 0
     if "history" not in obj:
         return 1
     exe, mx = build()
